@@ -6,6 +6,7 @@ import FendModel.Model.Proto
 import FendModel.Model.Json
 import FendModel.Model.Inline
 import FendModel.Model.StrLit
+import FendModel.Model.Date
 
 open Fend Fend.Proto
 
@@ -118,6 +119,55 @@ def strlitLine (line : String) : String :=
     | .error e => "err " ++ e.name
   | _ => "bad-op"
 
+open Fend.Date in
+def showDate (d : Fend.Date.Date) : String :=
+  match dayOfWeek d with
+  | some w => s!"ok {d.year} {d.month} {d.day} {w}"
+  | none => "panic"
+
+open Fend.Date in
+/-- `Y M D (op N)*` with op ∈ +d -d -w -m -y, applied left to right; or `lit <hex code points>` -/
+def dateLine (line : String) : String :=
+  let ws := line.trimAscii.toString.splitOn " "
+  match ws with
+  | "lit" :: hex =>
+    match parseHexCps (" ".intercalate hex) with
+    | none => "bad-op"
+    | some cps =>
+      -- the lexer hands the digits-digits-digits text after `@` to `Date::parse`
+      let isWs (c : Nat) : Bool := c = 32 || (9 ≤ c && c ≤ 13)
+      match scanDate cps with
+      | none => "err"
+      | some (t, rest) =>
+        if !rest.all isWs then "skip" else
+        match parseDate t with
+        | some d => showDate d
+        | none => "err"
+  | y :: m :: d :: ops =>
+    match y.toInt?, m.toNat?, d.toNat? with
+    | some y, some m, some d =>
+      let rec go (fuel : Nat) (cur : Fend.Date.Date) (ops : List String) : String :=
+        match fuel, ops with
+        | _, [] => showDate cur
+        | 0, _ => "bad-op"
+        | fuel + 1, op :: n :: rest =>
+          match n.toNat? with
+          | none => "bad-op"
+          | some n =>
+            if op = "+d" then match addDays n cur with | some c => go fuel c rest | none => "panic"
+            else if op = "-d" then match subDays n cur with | some c => go fuel c rest | none => "panic"
+            else if op = "-w" then match subDays (7 * n) cur with | some c => go fuel c rest | none => "panic"
+            else if op = "-m" ∨ op = "-y" then
+              match diffMonthsBack cur (if op = "-y" then 12 * n else n) with
+              | .ok c => go fuel c rest
+              | .nonExistent y m d => s!"nonexistent {y} {m} {d}"
+              | .panic => "panic"
+            else "bad-op"
+        | _, _ => "bad-op"
+      go ops.length ⟨y, m, d⟩ ops
+    | _, _, _ => "bad-op"
+  | _ => "bad-op"
+
 partial def loop (h : IO.FS.Stream) (out : IO.FS.Stream) (f : String → String) : IO Unit := do
   let line ← h.getLine
   if line.isEmpty then return ()
@@ -134,4 +184,5 @@ def main (args : List String) : IO UInt32 := do
   | ["jsondec"] => loop stdin stdout jsonDecLine; return 0
   | ["inline"] => loop stdin stdout inlineLine; return 0
   | ["strlit"] => loop stdin stdout strlitLine; return 0
+  | ["date"] => loop stdin stdout dateLine; return 0
   | _ => IO.eprintln "usage: fend_model_driver <stream>"; return 2
